@@ -94,6 +94,8 @@ def shapes(quick):
     reg('dt-stjohns', lambda h, l: h.dt(2021, 1, 15, 12, 0, 0, 0, -12600, 'America/St_Johns'))
     reg('dt-newyork', lambda h, l: h.dt(2021, 1, 15, 23, 59, 59, 0, -18000, 'America/New_York'))
     reg('dt-kathmandu', lambda h, l: h.dt(2021, 1, 15, 0, 0, 1, 0, 20700, 'Asia/Kathmandu'))
+    reg('dt-london-winter', lambda h, l: h.dt(2021, 1, 15, 12, 0, 0, 0, 0, 'Europe/London'))
+    reg('dt-reykjavik', lambda h, l: h.dt(2021, 7, 15, 12, 0, 0, 0, 0, 'Atlantic/Reykjavik'))
     reg('dt-knox', lambda h, l: h.dt(2021, 1, 15, 12, 0, 0, 0, -21600, 'America/Indiana/Knox'))
     reg('dt-buenos-aires', lambda h, l: h.dt(2021, 1, 15, 12, 0, 0, 0, -10800, 'America/Argentina/Buenos_Aires'))
     # collections
